@@ -157,9 +157,31 @@ const (
 	readerBlock     = 0 // pbfscen.Reader, a scheduling point once per file block (at the size prefix)
 	readerEveryRead = 1 // pbfscen.Reader, a scheduling point at every Read (size prefix, blob header, blob)
 	readerStutter   = 2 // stutterReader: at most 3 bytes per Read, every third Read returns (0, nil), the last bytes come together with io.EOF
+	// readerHalves: every Read delivers at most half of what was asked for (at least one
+	// byte) and is a scheduling point: another thread can run in the middle of an
+	// io.ReadFull, while a buffer is half filled
+	readerHalves = 3
 )
 
-var readerNames = []string{"", " reader-yields-at-every-read", " stuttering-reader"}
+var readerNames = []string{"", " reader-yields-at-every-read", " stuttering-reader", " reader-delivers-halves-and-yields-at-every-read"}
+
+type halvesReader struct {
+	data []byte
+	pos  int
+}
+
+func (r *halvesReader) Read(p []byte) (int, error) {
+	vsched.Yield("read")
+	if r.pos >= len(r.data) {
+		return 0, io.EOF
+	}
+	if len(p) > 1 {
+		p = p[:(len(p)+1)/2]
+	}
+	n := copy(p, r.data[r.pos:])
+	r.pos += n
+	return n, nil
+}
 
 // stutterReader is a legal but awkward io.Reader: short reads, reads that
 // return no data and no error, and the final bytes delivered together with
@@ -199,6 +221,8 @@ func newReader(kind int, data []byte) io.Reader {
 		return &pbfscen.Reader{Data: data}
 	case readerStutter:
 		return &stutterReader{data: data}
+	case readerHalves:
+		return &halvesReader{data: data}
 	}
 	return &pbfscen.Reader{Data: data, BlockOnly: true}
 }
